@@ -13,7 +13,7 @@ use std::collections::{BTreeMap, BTreeSet, HashMap};
 use std::sync::mpsc;
 use vhooks::{CallOut, Event, ExecPlan, FnDesc};
 use vmon::classify::{classify_store, sig};
-use vmon::model::{self, Belief, Cfg, Flavour, Key, Policy, State, Step, SEC};
+use vmon::model::{self, ttl_ns, Belief, Cfg, Flavour, Key, Policy, State, Step, SEC};
 use vmon::report::{hash64, hash_str, Report};
 use vmon::rng::Rng;
 use vmon::wrapper::{self, CallOutcome, Plan, StoreDecision, Why, WrapDesc};
@@ -876,7 +876,7 @@ impl<'a> Hist<'a> {
         }
         if let (Some(t), Some(e)) = (d.ttl, pre.get(slot as Key)) {
             let age = now - e.born;
-            if (age - t as i64 * SEC).abs() <= SEC {
+            if (age - ttl_ns(t)).abs() <= SEC {
                 rep.count("C06", "l2_lookups_within_1s_of_boundary", 1);
             }
             rep.distinct("C06", hash64(&[fidh, (age / (SEC / 4)) as u64]));
@@ -1320,11 +1320,11 @@ fn gen_op(g: &mut Gen, h: &Hist, n_actors: usize, focus: &str) -> Op {
         let now = vmon::clock::now();
         let mut targets = vec![];
         for m in &h.fns {
-            if let Some(t) = m.d.ttl {
+            if let Some(t) = m.d.ttl.filter(|t| model::ttl_reachable(*t)) {
                 for b in &m.beliefs {
                     if let Some(s) = b.single() {
                         for e in &s.ents {
-                            targets.push(e.born + t as i64 * SEC - now);
+                            targets.push(e.born.saturating_add(ttl_ns(t)) - now);
                         }
                     }
                 }
@@ -1519,7 +1519,25 @@ fn gen_call_fixed(g: &mut Gen, h: &Hist, f: usize, slot: u32) -> Op {
     Op::Call { f, slot, actor: 0, pure_, value: g.serial * 2 + 1, ok: true, len: None, pred: true, check: false }
 }
 
+/// Names that declare tags / events / dependencies but belong to no cache that was ever used
+/// (metadata registered through the public registry API, no clear callback): C12 counts and
+/// empties the *used* matching caches, whatever else is registered under the same tag.
+fn register_unused_names() {
+    let all = |v: &[&str]| v.iter().map(|s| s.to_string()).collect::<Vec<_>>();
+    for i in 0..6 {
+        cachelito_core::InvalidationRegistry::global().register(
+            &format!("declared_only_{}", i),
+            cachelito_core::InvalidationMetadata::new(
+                all(&["t_user", "t_geo", "t_cfg", "shared_a", "shared_b", "t_conc"]),
+                all(&["e_upd", "e_del", "shared_a", "shared_c"]),
+                all(&["d_db", "d_idx", "shared_b", "shared_c"]),
+            ),
+        );
+    }
+}
+
 fn main() {
+    register_unused_names();
     let args: Vec<String> = std::env::args().collect();
     let mut out = String::from("/dev/stdout");
     let mut seed = vmon::rng::seed_from_env();
